@@ -13,7 +13,7 @@ import (
 // its complete tokens, kind of the token still growing at its end, lexer mode, inside a
 // comment). Two prefixes with the same state have the same futures: further characters
 // are tokenised the same way (mode, growing token, comment) and the parser continues
-// from the same stack. The graph is built in the reference by BFS over the 18-character
+// from the same stack. The graph is built in the reference by BFS over the 19-character
 // alphabet to a fixpoint; then every edge is replayed on the implementation as
 // shortest-access-string + character (token stream, lexer modes, verdict, tree), followed
 // by the shortest accepting completion of the target state, or - when the target is
@@ -171,5 +171,5 @@ func c04Graph(e *Env, g *chordlang.Grammar, p *chordlang.SLR) {
 	for k := range index {
 		e.R.State("c04:" + k)
 	}
-	e.R.AddPart(ev.Part{Name: "stack-x-mode-graph", Enumerated: "explicit-state: model state = (LR stack of chords.y, growing token kind, lexer mode, in-comment); BFS over the 18 characters to fixpoint in the reference; every edge replayed on the implementation as access string + character, then + shortest accepting completion (live target) or + every 2 further characters (dead target)", Executions: tests, States: int64(len(states)), Transitions: int64(len(edges)), Exhaustive: true, Note: fmt.Sprintf("%d edges lead to the dead state", deadEdges)})
+	e.R.AddPart(ev.Part{Name: "stack-x-mode-graph", Enumerated: "explicit-state: model state = (LR stack of chords.y, growing token kind, lexer mode, in-comment); BFS over the 19 characters to fixpoint in the reference; every edge replayed on the implementation as access string + character, then + shortest accepting completion (live target) or + every 2 further characters (dead target)", Executions: tests, States: int64(len(states)), Transitions: int64(len(edges)), Exhaustive: true, Note: fmt.Sprintf("%d edges lead to the dead state", deadEdges)})
 }
